@@ -11,6 +11,7 @@ __author__ = "Christian Donner"
 from jax.random import PRNGKey
 import jax
 from jax import numpy as jnp
+import numpy as np
 
 # from .
 from . import measure
@@ -178,8 +179,11 @@ class GaussianPDF(measure.GaussianMeasure):
         """
         from . import conditional
 
-        dim_xy = jnp.arange(self.D, dtype=jnp.int32)
-        dim_x = jnp.setxor1d(dim_xy, dim_y)
+        # index sets are static: compute them with NumPy so that the method also works
+        # under jit (jnp.setxor1d has a data-dependent output shape)
+        dim_x = jnp.asarray(
+            np.setxor1d(np.arange(self.D), np.asarray(dim_y)), dtype=jnp.int32
+        )
         # dim_x = dim_xy[jnp.logical_not(jnp.isin(dim_xy, dim_y))]
         Lambda_x = self.Lambda[:, dim_x][:, :, dim_x]
         Sigma_x, ln_det_Lambda_x = invert_matrix(Lambda_x)
